@@ -1000,7 +1000,7 @@ func (vm *VM) run() (Addr, bool) {
 		case OpIndexString, -OpIndexString:
 			vm.setInt(c, int64(vm.string(a)[int(vm.intk(b, op < 0))]))
 		case OpIndexRef, -OpIndexRef:
-			v := vm.general(a)
+			v := vm.arrayOfPointer(vm.general(a))
 			i := int(vm.intk(b, op < 0))
 			vm.setFromReflectValue(c, v.Index(i))
 
